@@ -134,3 +134,87 @@ def word_reads(fold, w, content):
 def call_arg_reads(w, content):
     st, out = mk_call_arg.run((N, 1, 0), w)
     return AND(st[0] == N, st[1] == 1, st[2] == 0, out == content)
+
+
+# ---- concrete (Python) readers used by the bounded native harnesses ------------------------------------
+
+class MakeReadError(Exception):
+    pass
+
+
+def mk_expand_py(text, env):
+    """Expansion of `text` by make: `$$` -> `$`, `$(name)`/`${name}`/`$x` -> env value (not rescanned)."""
+    out, i = [], 0
+    while i < len(text):
+        c = text[i]
+        if c != '$':
+            out.append(c)
+            i += 1
+            continue
+        if i + 1 >= len(text):
+            raise MakeReadError('trailing $')
+        d = text[i + 1]
+        if d == '$':
+            out.append('$')
+            i += 2
+        elif d in '({':
+            close = ')' if d == '(' else '}'
+            j = text.find(close, i + 2)
+            if j < 0:
+                raise MakeReadError('unterminated reference')
+            name = text[i + 2:j]
+            if name not in env:
+                raise MakeReadError('reference to %r' % name)
+            out.append(env[name])
+            i = j + 1
+        else:
+            if d not in env:
+                raise MakeReadError('reference to %r' % d)
+            out.append(env[d])
+            i += 2
+    return ''.join(out)
+
+
+def mk_strip_comment_py(line):
+    """remove_comments: an unescaped `#` starts a comment; backslashes before `#` follow the 2n+1 rule."""
+    out, i = [], 0
+    while i < len(line):
+        if line[i] == '\\':
+            j = i
+            while j < len(line) and line[j] == '\\':
+                j += 1
+            n = j - i
+            if j < len(line) and line[j] == '#':
+                out.append('\\' * (n // 2))
+                if n % 2 == 0:
+                    return ''.join(out)
+                out.append('#')
+                i = j + 1
+            else:
+                out.append('\\' * n)
+                i = j
+        elif line[i] == '#':
+            return ''.join(out)
+        else:
+            out.append(line[i])
+            i += 1
+    return ''.join(out)
+
+
+def mk_assignment_value_py(line, env):
+    """`NAME := value` (or `target: NAME := value`) -> (NAME, value as later substituted into a recipe)."""
+    line = mk_strip_comment_py(line)
+    if ':=' not in line:
+        raise MakeReadError('no :=')
+    lhs, rhs = line.split(':=', 1)
+    return lhs.strip().split()[-1], mk_expand_py(rhs.lstrip(' \t'), env)
+
+
+def mk_recipe_line_py(text, env):
+    """A recipe line (after the tab): prefix characters are consumed by make, the rest is expanded."""
+    i = 0
+    prefixes = ''
+    while i < len(text) and text[i] in '@-+ \t':
+        prefixes += text[i]
+        i += 1
+    return prefixes, mk_expand_py(text[i:], env)
